@@ -4,9 +4,11 @@
 package c02
 
 import (
+	"crypto/sha256"
 	"encoding/base64"
 	"encoding/json"
 	"fmt"
+	"math/big"
 	"strings"
 
 	"verif/engine/core"
@@ -388,6 +390,42 @@ func Run(r *core.Run) {
 					rsd := ops.Sign(signer, ops.RecoverPayload(signer, ops.HashOf(d, code), ops.Commitment(next2, code), "origin", ops.Window{}))
 					add("cross-type/recover-signed-data-as-deactivate", ops.Bytes(ops.Request("deactivate", suffix, ops.Reveal(signer, code), rsd, nil)))
 					add("cross-type/recover-signed-data-as-deactivate-with-delta", ops.Bytes(ops.Request("deactivate", suffix, ops.Reveal(signer, code), rsd, d)))
+				}
+			}
+			if kt == "secp256k1" || kt == "P-256" {
+				// operations "signed" for a public key that nobody holds: the JWK names a point (X, 0), which is on no supported curve (a
+				// point of order two for the doubling formulas), and the signature is made from public values alone, r = x(k*G) mod n,
+				// s = e/k mod n, for k = 1..12 - it verifies wherever the key is used without being checked against the curve equation
+				curve := keys.Curve(kt)
+				n := curve.Params().N
+				w := keys.Width(kt)
+				for xi, x := range []*big.Int{big.NewInt(1), big.NewInt(5), new(big.Int).Set(signer.EC.X)} {
+					jwk := ops.M{"kty": "EC", "crv": kt, "x": enc.EncodeToString(x.FillBytes(make([]byte, w))), "y": enc.EncodeToString(make([]byte, w))}
+					d := ops.Delta(ops.Commitment(other, code), patch2)
+					var pl ops.M
+					switch typ {
+					case operation.TypeUpdate:
+						pl = ops.M{"updateKey": jwk, "deltaHash": ops.HashOf(d, code)}
+					case operation.TypeRecover:
+						pl = ops.M{"recoveryKey": jwk, "deltaHash": ops.HashOf(d, code), "recoveryCommitment": ops.Commitment(other, code)}
+					default:
+						pl = ops.M{"recoveryKey": jwk, "didSuffix": suffix}
+						d = nil
+					}
+					input := enc.EncodeToString(signer.Header()) + "." + enc.EncodeToString(ops.Canon(pl))
+					digest := sha256.Sum256([]byte(input))
+					e := new(big.Int).SetBytes(digest[:])
+					for k := int64(1); k <= 12; k++ {
+						rx, _ := curve.ScalarBaseMult(big.NewInt(k).Bytes())
+						rr := new(big.Int).Mod(rx, n)
+						ss := new(big.Int).Mul(e, new(big.Int).ModInverse(big.NewInt(k), n))
+						ss.Mod(ss, n)
+						if rr.Sign() == 0 || ss.Sign() == 0 {
+							continue
+						}
+						sig := append(rr.FillBytes(make([]byte, w)), ss.FillBytes(make([]byte, w))...)
+						add(fmt.Sprintf("keyless-point/x%d/k%d", xi, k), ops.Bytes(ops.Request(string(typ), suffix, ops.HashOf(jwk, code), input+"."+enc.EncodeToString(sig), d)))
+					}
 				}
 			}
 			if typ == operation.TypeRecover {
